@@ -267,7 +267,8 @@ def _to_comparable_priority(todo_payload: Optional["TodoPayload"]) -> str:
 
 def _to_comparable_file(file_path: Optional[Path]) -> str:
     assert file_path is not None
-    link_name = str(file_path).replace(".zo", "")
+    # Only the extension: '.zo' may occur elsewhere in the path (my.zone/a.zo).
+    link_name = str(file_path).removesuffix(".zo")
     return f"[[{link_name}]]"
 
 
